@@ -108,6 +108,30 @@ Theorem C11_eagain_step :
 Proof. exact eagain_step. Qed.
 Print Assumptions C11_eagain_step.
 
+(* EAGAINs count CONSECUTIVELY (every successful send() resets the counter): on a
+   send-only trace of encodable text in which EAGAINs come in runs of at most
+   EAGAIN_MAX+1 -- however many in total, nothing being received meanwhile -- the
+   connection stays up and the stream invariant holds; sends accepting at least
+   one byte then put every byte of every taken message on the wire. *)
+Theorem C11_out_eagain_runs_survive :
+  forall M decode ws (parse : str -> res M) sep tr,
+  eagain_runs_ok 0 tr = true ->
+  let st := run_trace M decode ws parse sep (init M) tr in
+  connected st = true /\ dead st = None /\ wire st ++ outbuffer st = utf8 (taken st).
+Proof. exact out_eagain_runs_survive. Qed.
+Print Assumptions C11_out_eagain_runs_survive.
+
+Theorem C11_out_eagain_runs_deliver :
+  forall M decode ws (parse : str -> res M) sep tr ks,
+  eagain_runs_ok 0 tr = true ->
+  Forall (fun k => (1 <= k)%N) ks ->
+  (length (outbuffer (run_trace M decode ws parse sep (init M) tr)) <= length ks)%nat ->
+  let st' := run_trace M decode ws parse sep (init M) (tr ++ drains ks) in
+  connected st' = true /\ dead st' = None /\ outbuffer st' = [] /\
+  wire st' = utf8 (taken (run_trace M decode ws parse sep (init M) tr)).
+Proof. exact out_eagain_runs_deliver. Qed.
+Print Assumptions C11_out_eagain_runs_deliver.
+
 (* Progress: on a live connection, sends that accept at least one byte empty
    the buffer within |outbuffer| calls: every buffered byte reaches the socket,
    no message is taken or lost meanwhile. *)
